@@ -3,6 +3,7 @@ package props
 import (
 	"fmt"
 	"go/token"
+	"go/types"
 
 	"golang.org/x/tools/go/ssa"
 
@@ -426,13 +427,17 @@ func mentionsLookupOf(v ssa.Value, idx ssa.Value, depth int) bool {
 func clientOutcomeRules(c *Ctx, rule string) {
 	c.Rule(rule, "Client.TwoPhaseCommit calls mutationHasPrimary (or an equivalent key comparison over the primary region's mutations) before the first prewrite and returns an error when it fails; Client.Scan reads ScanResponse.GetError before ScanResponse.GetKvs on every path; commandPipeline.applyEntries completes waiters only through a function that compares the header's region id and peer id with the waiter's")
 	if fn := c.Fn("raftstore/client", "Client.TwoPhaseCommit"); fn != nil {
-		hp := Calls(fn, false, Named("raftstore/client.mutationHasPrimary"))
+		var hp []ssa.Value
+		for _, h := range Calls(fn, false, Named("raftstore/client.mutationHasPrimary")) {
+			hp = append(hp, h.Value())
+		}
+		hp = append(hp, inlinedKeyMatchFlags(fn)...)
 		pw := Calls(fn, false, Named("raftstore/client.(*Client).prewriteRegion"))
 		ok := len(hp) > 0 && len(pw) > 0
 		for _, p := range pw {
 			good := false
 			for _, h := range hp {
-				for e := range boolValueEdges(fn, h.Value(), true) {
+				for e := range boolValueEdges(fn, h, true) {
 					if EdgeDominates(e[0], e[1], p.Block()) {
 						good = true
 					}
@@ -507,4 +512,115 @@ func clientOutcomeRules(c *Ctx, rule string) {
 		c.Decide(n > 0 && bad == 0, rule, key(fn, "waiter-completed-by-its-own-command"), fn.Pos(), n+1, "an applied command completes a waiter only when request id, region and proposing peer match",
 			"applyEntries completes the waiter that has the applied command's request id without comparing region and proposing peer: request ids are a per-store counter, so a command of another store (after a leader change) or of another region with the same id acknowledges a proposal that was never applied – with that other command's response")
 	}
+}
+
+// inlinedKeyMatchFlags: boolean flags of fn that can be true only when a mutation's key compared
+// equal to one of fn's []byte parameters (the inlined form of mutationHasPrimary: a loop over the
+// mutations that sets `found = true` on the equal edge of bytes.Equal / a three-way compare == 0).
+func inlinedKeyMatchFlags(fn *ssa.Function) []ssa.Value {
+	isParam := func(v ssa.Value) bool {
+		p, ok := Unwrap(v).(*ssa.Parameter)
+		return ok && p.Parent() == fn
+	}
+	isMutKey := func(v ssa.Value) bool {
+		call, ok := Unwrap(v).(*ssa.Call)
+		return ok && Named("(*pb.Mutation).GetKey")(call.Common())
+	}
+	pairCall := func(v ssa.Value) (*ssa.Call, bool) {
+		call, ok := Unwrap(v).(*ssa.Call)
+		if !ok || len(call.Call.Args) != 2 {
+			return nil, false
+		}
+		a, b := call.Call.Args[0], call.Call.Args[1]
+		return call, isMutKey(a) && isParam(b) || isMutKey(b) && isParam(a)
+	}
+	equalEdges := edgeSet{}
+	for _, b := range fn.Blocks {
+		ifi := ifOf(b)
+		if ifi == nil {
+			continue
+		}
+		cond, neg := ifi.Cond, false
+		for {
+			u, ok := cond.(*ssa.UnOp)
+			if !ok || u.Op != token.NOT {
+				break
+			}
+			cond, neg = u.X, !neg
+		}
+		onTrue, found := false, false
+		if call, ok := pairCall(cond); ok && types.Identical(call.Type(), types.Typ[types.Bool]) {
+			onTrue, found = true, true
+		} else if bo, isBo := cond.(*ssa.BinOp); isBo && (bo.Op == token.EQL || bo.Op == token.NEQ) {
+			if k, isC := ConstInt(bo.Y); isC && k == 0 {
+				if _, ok := pairCall(bo.X); ok {
+					onTrue, found = bo.Op == token.EQL, true
+				}
+			}
+		}
+		if !found {
+			continue
+		}
+		if neg {
+			onTrue = !onTrue
+		}
+		if onTrue {
+			equalEdges[[2]*ssa.BasicBlock{b, b.Succs[0]}] = true
+		} else {
+			equalEdges[[2]*ssa.BasicBlock{b, b.Succs[1]}] = true
+		}
+	}
+	if len(equalEdges) == 0 {
+		return nil
+	}
+	behindEqual := func(b *ssa.BasicBlock) bool {
+		for e := range equalEdges {
+			if EdgeDominates(e[0], e[1], b) {
+				return true
+			}
+		}
+		return false
+	}
+	var out []ssa.Value
+	for _, b := range fn.Blocks {
+		for _, in := range b.Instrs {
+			phi, ok := in.(*ssa.Phi)
+			if !ok || !types.Identical(phi.Type(), types.Typ[types.Bool]) {
+				continue
+			}
+			// true only behind an equal edge: every incoming value is false, the flag itself
+			// (loop-carried), or true from a block behind an equal edge
+			seen := map[*ssa.Phi]bool{}
+			sawTrue := false
+			var okPhi func(p *ssa.Phi) bool
+			okPhi = func(p *ssa.Phi) bool {
+				if seen[p] {
+					return true
+				}
+				seen[p] = true
+				for i, e := range p.Edges {
+					switch x := e.(type) {
+					case *ssa.Const:
+						if x.Value != nil && x.Value.String() == "true" {
+							if !behindEqual(p.Block().Preds[i]) {
+								return false
+							}
+							sawTrue = true
+						}
+					case *ssa.Phi:
+						if !okPhi(x) {
+							return false
+						}
+					default:
+						return false
+					}
+				}
+				return true
+			}
+			if okPhi(phi) && sawTrue {
+				out = append(out, phi)
+			}
+		}
+	}
+	return out
 }
